@@ -12,6 +12,7 @@ import os
 import shutil
 import signal
 import subprocess
+import sys
 import time
 from concurrent.futures import ThreadPoolExecutor
 
@@ -297,6 +298,22 @@ def read_events(path):
     return out
 
 
+def _interrupt_main_thread(p):
+    """SIGINT for the daemon's MAIN thread (its thread id equals the process id).  A process-directed signal may be
+    handed to any thread; CPython then only sets a flag and a main thread sleeping in an idle asyncio loop is not
+    woken (see harness/rt_scenario.py:send_sigint) - the daemon would look hung although nothing of cobald is."""
+    try:
+        import ctypes
+        import platform
+        if platform.machine() == "x86_64" and sys.platform.startswith("linux"):
+            libc = ctypes.CDLL(None, use_errno=True)
+            if libc.syscall(234, p.pid, p.pid, int(signal.SIGINT)) == 0:      # SYS_tgkill
+                return
+    except Exception:     # noqa
+        pass
+    p.send_signal(signal.SIGINT)
+
+
 def run_impl(case):
     d = os.path.join(WORK, "run_%d_%d" % (os.getpid(), case["idx"]))
     shutil.rmtree(d, ignore_errors=True)
@@ -326,7 +343,7 @@ def run_impl(case):
                 sig_t = time.monotonic()
                 with open(evp, "a") as fh:
                     fh.write(json.dumps({"t": sig_t, "tid": 0, "ev": ["Sigint"]}) + "\n")
-                p.send_signal(signal.SIGINT)
+                _interrupt_main_thread(p)
                 continue
         if now - t0 > 8.0:
             timed_out = True
